@@ -30,10 +30,10 @@ META["text"] = (
     "activation dynamics move act towards the clamped control for all parameters (C27_muscle_FL_range, C27_muscle_FV_range, C27_muscle_gain_sign, C27_muscle_bias_sign, C27_sigmoid_range, C27_muscle_dynamics_sign). "
     "Tied on every run: the exported mju_muscleGain/Bias/Dynamics/GainLength/sigmoid on random and branch-boundary inputs, and mj_fwdActuation outputs (act_dot, actuator_force over all outputs, qfrc_actuator) on mjgen models extended with SO3 servos (exponential-map and quaternion targets) "
     "placed between scalar actuators (so that nactuator, nu and nout all differ), force-limited scalar motors after them with saturating controls, muscles, actuator groups and disableactuator masks, joint and tendon actuator-force ranges, actuator gravity compensation, actearly, "
-    "mjDSBL_CLAMPCTRL and mjDSBL_ACTUATION (with stale act_dot planted before the call), all evaluated in the Coq model at binary64. "
+    "mjDSBL_CLAMPCTRL and mjDSBL_ACTUATION (with stale act_dot planted before the call), and an activation-range stratum (every stateful dyntype x actearly with an asymmetric actrange, time constants of the order of the timestep, the state exactly at / just inside / beyond an end of the range and a control pushing outwards, four mj_steps); act_dot, forces, qfrc and the activation after the first step are evaluated in the Coq model at binary64. "
     "Oracle on implementation output (independent of the model; ranges read by actuator index, outputs by outadr, controls by ctrladr): every enabled force-limited scalar actuator has actuator_force[outadr] within forcerange[i] and equal to clamp(gain*input + bias) recomputed with the clamped control, "
     "SO3 blocks have norm <= forcerange[1], qfrc_actuator = clamp(moment^T force + actuator gravcomp) to 1e-12 scaled, clamped dofs within actfrcrange, disabled groups give exactly zero output blocks and frozen activations over a step, "
-    "activations within actrange after mj_step, filter/integrator act_dot laws, muscle forces non-positive, everything zero with mjDSBL_ACTUATION. "
+    "activations within actrange after each of four mj_steps, filter/integrator act_dot laws, muscle forces non-positive, everything zero with mjDSBL_ACTUATION. "
     "Not covered: PID/DC-motor/user actuator types, SO3 with integrator dynamics or site transmission (the SO3 force law itself is tied but has no theorem beyond the clamp), delays, periodic (ball/site) scalar servo setpoints, mj_transmission itself (moment arms are inputs), sleeping.")
 META["note"] = ("Trusted: Coq kernel + the standard-library real-number axioms listed in trusted_base; hand-written model; Lib/FloatFn.v (executable side); "
                 "correspondence harness (gcc, driver c27_act.c which #includes engine/engine_forward.c, mjgen.h).")
@@ -120,10 +120,11 @@ Definition mkD (t : bool * float * bool * float * float) : option float * bool *
   match t with (add, g, lim, lo, hi) => (if add then Some g else None, lim, lo, hi) end.
 Definition chkM (c : (bool * Z * float * bool * nat * nat) * list AT * (list (bool * float * float) * list float * list float * list float) *
                      list (bool * float * float) * list (list float) * list (bool * float * bool * float * float) *
-                     (list float * list float * list float)) : bool :=
-  match c with ((actoff, mask, h, noclamp, nout, nv), acts, (lims, ctrl, len, vel), tendons, moment, dofs, (dots, forces, qfrc)) =>
+                     (list float * list float * list float * list float)) : bool :=
+  match c with ((actoff, mask, h, noclamp, nout, nv), acts, (lims, ctrl, len, vel), tendons, moment, dofs, (dots, forces, qfrc, anext)) =>
     match fwd_actuation actoff mask h nout nv noclamp lims ctrl len vel (map mkA acts) tendons moment (map mkD dofs) with
-    | (md, mf, mq) => fclose_list TOL md dots && fclose_list TOL mf forces && fclose_list TOL mq qfrc
+    | (md, mf, mq) => fclose_list TOL md dots && fclose_list TOL mf forces && fclose_list TOL mq qfrc &&
+                      fclose_list TOL (advance_acts actoff mask h (map mkA acts) md) anext
     end end.
 Definition chkF (c : Z * list float * float) : bool :=
   match c with (op, a, out) =>
@@ -217,7 +218,7 @@ def run(ctx):
         return
     pos = 0
     mcases, mmeta = [], []
-    stats = dict(models=0, skipped=0, multi_output_models=0, so3_actuators=0, so3_clamped=0, scalar_limited_after_multi=0, actuation_off=0, actuators=0, disabled=0, ctrl_clamped=0, force_clamped=0, dof_clamped=0, tendon_scaled=0, muscles=0, actearly=0, gravcomp_dofs=0,
+    stats = dict(models=0, skipped=0, multi_output_models=0, so3_actuators=0, so3_clamped=0, actlimited_states=0, actrange_active=0, scalar_limited_after_multi=0, actuation_off=0, actuators=0, disabled=0, ctrl_clamped=0, force_clamped=0, dof_clamped=0, tendon_scaled=0, muscles=0, actearly=0, gravcomp_dofs=0,
                  law_checks=0, by_type={})
     try:
         for r in req:
@@ -260,22 +261,27 @@ def run(ctx):
             qfrc = [fl(x) for x in t[1:]]
             t = lines[pos].split(); pos += 1
             adot = [fl(x) for x in t[1:]]
-            t = lines[pos].split(); pos += 1
-            anext = [fl(x) for x in t[1:]]
-            if len(qfrc) != nv or len(anext) != na or len(adot) != na:
+            traj = []
+            for k in range(4):
+                t = lines[pos].split(); pos += 1
+                if t[0] != "N" or len(t) != na + 1:
+                    raise ValueError("N line")
+                traj.append([fl(x) for x in t[1:]])
+            anext = traj[0]
+            if len(qfrc) != nv or len(adot) != na:
                 raise ValueError("vector sizes")
             stats["models"] += 1
             if nout != nact:
                 stats["multi_output_models"] += 1
             case = {"request": "M %d %d %d %d" % r[1:]}
-            oracle(ctx, case, acts, lims, ctrl, force, tendons, moment, dofs, qfrc, adot, anext, h, mask, noclamp, actoff, stats)
+            oracle(ctx, case, acts, lims, ctrl, force, tendons, moment, dofs, qfrc, adot, anext, h, mask, noclamp, actoff, stats, traj)
             mcases.append("((%s, %s, %s, %s, %d%%nat, %d%%nat), [%s], ([%s], %s, %s, %s), [%s], [%s], [%s], (%s, %s, %s))" % (
                 bb(actoff), zz(mask), ff(h), bb(noclamp), nout, nv, "; ".join(coq_act(a) for a in acts),
                 "; ".join("(%s, %s, %s)" % (bb(l), ff(lo), ff(hi)) for l, lo, hi in lims), F.flist(ctrl), F.flist(length), F.flist(vel),
                 "; ".join("(%s, %s, %s)" % (bb(l), ff(lo), ff(hi)) for l, lo, hi in tendons),
                 "; ".join(F.flist(row) for row in moment),
                 "; ".join("(%s, %s, %s, %s, %s)" % (bb(ad), ff(g), bb(l), ff(lo), ff(hi)) for ad, g, l, lo, hi in dofs),
-                F.flist([a.dot for a in acts]), F.flist(force), F.flist(qfrc)))
+                F.flist([a.dot for a in acts]), F.flist(force), F.flist(qfrc) + ", " + F.flist([anext[a.actadr] if a.actnum == 1 else 0.0 for a in acts])))
             mmeta.append(case)
         flits = []
         for op, a in fcases:
@@ -316,7 +322,7 @@ def run(ctx):
         ctx.violation("correspondence", {"fn": opc[op], "args": a}, expected="Model/Actuation.v muscle function at binary64", observed="differs", found_input=False,
                       theorem="correspondence c27 muscle function " + opc[op], signature={"site": "muscle", "op": opc[op]})
     ctx.cov["evaluations"] = len(mcases) + len(flits)
-    ctx.cov["distinct_nontrivial"] = stats["ctrl_clamped"] + stats["force_clamped"] + stats["dof_clamped"] + stats["disabled"] + stats["muscles"] + stats["so3_actuators"] + len(flits)
+    ctx.cov["distinct_nontrivial"] = stats["ctrl_clamped"] + stats["force_clamped"] + stats["dof_clamped"] + stats["disabled"] + stats["muscles"] + stats["so3_actuators"] + stats["actrange_active"] + len(flits)
     ctx.cov["rule"] = ("one evaluation = one generated model state (mj_forward: act_dot, actuator_force, qfrc_actuator of all its actuators compared with the Coq model at binary64) or one muscle-function call; "
                        "non-trivial = actuator instances with an active ctrl clamp / active force clamp / disabled group / muscle type / so3 type, dofs with an active joint force clamp, and all muscle-function calls (branch points included)")
     ctx.cov["samples"] = [mmeta[0] if mmeta else None, {"fn": opc[fcases[0][0]], "args": fcases[0][1]}]
@@ -326,7 +332,7 @@ def run(ctx):
                               % (len(mcases), stats["actuators"], len(flits), stats["law_checks"]))
 
 
-def oracle(ctx, case, acts, lims, ctrl, force, tendons, moment, dofs, qfrc, adot, anext, h, mask, noclamp, actoff, stats):
+def oracle(ctx, case, acts, lims, ctrl, force, tendons, moment, dofs, qfrc, adot, anext, h, mask, noclamp, actoff, stats, traj):
     """ranges are looked up by ACTUATOR index (a.frange comes from actuator_forcerange[2*i]), outputs by OUTPUT address
     (force[a.outadr + k]), controls by CONTROL address (ctrl[a.ctrladr + k], lims[control index])"""
     nv = len(qfrc)
@@ -433,12 +439,22 @@ def oracle(ctx, case, acts, lims, ctrl, force, tendons, moment, dofs, qfrc, adot
                               note=("forcerange %r" % a.frange) if a.fl else "")
             if a.fl and not (a.frange[0] <= 0 <= a.frange[1]):
                 stats["disabled_forcerange_excludes_zero"] = stats.get("disabled_forcerange_excludes_zero", 0) + 1
-            if a.actnum and anext[a.actadr] != a.act:
-                ctx.violation("impl_violation", c, expected="activation of a disabled actuator is frozen over mj_step (%r)" % a.act, observed=anext[a.actadr],
+            frozen = clip(a.act, a.arange[0], a.arange[1]) if a.al else a.act
+            if a.actnum and anext[a.actadr] != frozen:
+                ctx.violation("impl_violation", c, expected="activation of a disabled actuator is frozen over mj_step (%r)" % frozen, observed=anext[a.actadr],
                               theorem="C27_disabled_zero_force", signature={"site": "mj_advance", "class": "disabled-act"})
-        elif a.actnum and a.al and not (a.arange[0] <= anext[a.actadr] <= a.arange[1]):
-            ctx.violation("impl_violation", c, expected="activation within actrange %r after mj_step" % a.arange, observed=anext[a.actadr],
-                          theorem="C27_next_activation_in_range", signature={"site": "mj_advance", "class": "actrange"})
+        elif a.actnum and a.al:
+            stats["actlimited_states"] += 1
+            lo_, hi_ = a.arange
+            if not (lo_ < a.act < hi_) or any(not (lo_ < row[a.actadr] < hi_) for row in traj):
+                stats["actrange_active"] += 1
+                key2 = "actrange_active_dyn%d" % a.dyn
+                stats[key2] = stats.get(key2, 0) + 1
+            for k, row in enumerate(traj):
+                if not (lo_ <= row[a.actadr] <= hi_):
+                    ctx.violation("impl_violation", dict(c, step=k + 1), expected="activation within actrange %r after every mj_step (dyntype %d, act0 %r, ctrl %r)" % (a.arange, a.dyn, a.act, a.ctrl),
+                                  observed=row[a.actadr], theorem="C27_advance_in_range", signature={"site": "mj_advance", "class": "actrange"})
+                    break
         if a.fl and not disabled:
             if not (a.frange[0] <= a.force <= a.frange[1]):
                 ctx.violation("impl_violation", c, expected="actuator_force within forcerange %r" % a.frange, observed=a.force,
